@@ -448,6 +448,11 @@ def run(ctx):
     split_call_sequence_block(ctx, ctx.rng)
     split_block(ctx, ctx.rng)
 
+    # the increment through whole runs (own random stream): adaptive explicit methods, every recorded step is one step of the scheme
+    import random as _random, runsim
+    runsim.adaptive_steps_block(ctx, _random.Random(ctx.seed * 7919 + 2), 2 if ctx.quick() else 10)
+
+
 
 def replay(rep):
     return False
